@@ -619,6 +619,13 @@ func (P *Program) computeModSet(fn *ssa.Function, ms *ModSet) {
 		for _, in := range b.Instrs {
 			switch x := in.(type) {
 			case *ssa.Store:
+				// a store into an object this function allocated itself (addressed through field/element
+				// selection from the allocation) is not an effect a caller can observe on its pre-call heap
+				// (only for stored values without pointers, or nil/zero constants: the caller's stale cell of a
+				// pointer field would still carry the "refers to an object allocated before" range fact)
+				if rootAlloc(x.Addr) != nil && (pointerFree(x.Val.Type()) || isZeroConst(x.Val)) {
+					continue
+				}
 				P.addStoreTarget(ms, x.Addr, esc)
 			case *ssa.MapUpdate:
 				mt := typeName(x.Map.Type())
